@@ -121,6 +121,14 @@ TypeInv == \A n \in DOMAIN mN.names : \A x \in DOMAIN mN.names[n] :
 SizeBound == ScBound(sc)
 SizeInv == \A a \in 1..Len(mN.heap) : Len(mN.heap[a].items) <= SizeBound
 Terminates == TLCGet("level") <= 4000
+\* C18: every name an evaluation asks the host mapping for occurs in the source (hence in list_names(source),
+\* which yields every NAME token - SQLexer/SQGrammar: NamesInTreeListed), apart from the implicit names of the
+\* syntax sugar.  Stated for calls without host-supplied ASTs and without closures of earlier calls.
+LookedInv == \A i \in 1..Len(mN.results) :
+                (Len(ScCalls(sc)[i].ast) = 0 /\ i = 1 /\ ScCalls(sc)[i].tree.k # "parsefail")
+                => mN.results[i].looked \subseteq (TreeNames(ScCalls(sc)[i].tree) \cup ImplicitNames)
+LookedNow == (mN.ci = 1 /\ Len(ScCalls(sc)[1].ast) = 0 /\ ScCalls(sc)[1].tree.k # "parsefail")
+             => mN.looked \subseteq (TreeNames(ScCalls(sc)[1].tree) \cup ImplicitNames)
 
 (***************************************************************************)
 (* Direction A: one JSON line per scenario whose exploration finished; the *)
